@@ -617,6 +617,46 @@ def r07_8(ctx, rep):
         raise MechanismMissing(R, "no dimension assignment / attribute copy loop found in flatten_symbols")
 
 
+@SPEC.rule(
+    "R07.9",
+    "every extends clause contributes: each iteration of flatten_extends' loop over the extends clauses that does not raise passes "
+    "the recursive flatten_extends of the base found and the merge of its symbols and equations — no `seen this base already` shortcut "
+    "(two different bases may share a simple name: LibA.Base and LibB.Base) ends an iteration early",
+)
+def r07_9(ctx, rep):
+    from ..cfg import iteration_skips
+    R = "R07.9"
+    fn = ctx.func(TREE, "flatten_extends", R)
+    site = TREE + ":flatten_extends"
+    loops = [lp for lp in fn.body if isinstance(lp, ast.For) and norm(lp.iter).endswith(".extends")]
+    if len(loops) != 1:
+        raise MechanismMissing(R, "the loop over <class>.extends not found at the top level of flatten_extends")
+    lp = loops[0]
+    cfg = CFG(fn, R)
+    for what, pred in (
+        ("the base class is flattened recursively", lambda x: x.kind == "stmt" and any(is_name(c.func, "flatten_extends") for c in calls(x.ast))),
+        ("the base's symbols are merged", lambda x: x.kind == "stmt" and any(isinstance(c.func, ast.Attribute) and c.func.attr == "update" and norm(c.func.value).endswith(".symbols") for c in calls(x.ast))),
+        ("the base's equations are merged", lambda x: x.kind == "stmt" and isinstance(x.ast, ast.AugAssign) and norm(x.ast.target).endswith(".equations")
+            or (x.kind == "stmt" and any(isinstance(c.func, ast.Attribute) and c.func.attr == "extend" and norm(c.func.value).endswith(".equations") for c in calls(x.ast)))),
+    ):
+        w = iteration_skips(cfg, lp, pred)
+        rep.ob(R, site, "for every extends clause " + what, w is None,
+               "an iteration over the extends clauses can end without it: that base's variables and equations are missing from the instance, and "
+               "equations of the class that refer to them keep names that denote nothing", path=cfg.describe(w) if w else "")
+
+
+@SPEC.rule(
+    "R07.10",
+    "each instance is flattened on objects of its own: the ownership analysis of tree.flatten finds no statement that may write to an "
+    "object reached through an un-copied class lookup — a base class extended without modifications that is not copied is shared by "
+    "all its instances and with the parsed tree, so renaming and prefix stripping done for one instance show up in the others",
+)
+def r07_10(ctx, rep):
+    from ..engine import run_as
+    from .c05 import r05_1
+    run_as(r05_1, "R07.10", ctx, rep)
+
+
 # -- seeded variants ---------------------------------------------------------
 from ._mut import delete_stmt_where, replace_in_func  # noqa: E402
 
@@ -762,3 +802,18 @@ def _m_dim(mod):
         return hit
 
     return mod if replace_in_func(mod, "flatten_symbols", edit) else None
+
+
+@SPEC.mutant("bases with an already seen simple name are skipped", TREE, "R07.9", "for every extends clause")
+def _m_seen_base(mod):
+    def edit(fn):
+        for i, st in enumerate(fn.body):
+            if isinstance(st, ast.For) and norm(st.iter).endswith(".extends"):
+                k = [j for j, b in enumerate(st.body) if "flatten_extends(" in norm(b)][0]
+                st.body.insert(k, ast.parse("if c.name in _merged:\n    continue").body[0])
+                st.body.insert(k + 1, ast.parse("_merged.add(c.name)").body[0])
+                fn.body.insert(i, ast.parse("_merged = set()").body[0])
+                return True
+        return False
+
+    return mod if replace_in_func(mod, "flatten_extends", edit) else None
